@@ -734,6 +734,14 @@ pub fn build(spec: &RecorderSpec) -> Model {
         }
         occs.push(occ);
     }
+    if end.is_none() && spec.cut_last_frame > 0 && !occs.is_empty() {
+        let last = occs.len() - 1;
+        let in_last = base.iter().filter(|p| p.occ == Some(last)).count();
+        let drop = (spec.cut_last_frame as usize).min(in_last.saturating_sub(1));
+        for _ in 0..drop {
+            base.pop();
+        }
+    }
     let n_before_end = base.len();
     if let Some(e) = &end {
         base.push(Pending { bytes: e.clone(), occ: None, what: What::End { dup: false } });
